@@ -9,6 +9,7 @@ git merge --no-commit --no-ff "$b" >/tmp/merge.log 2>&1 || true
 for f in MANIFEST.json lean/Driver.lean lean/RigModel.lean $(git diff --name-only --diff-filter=U | grep "^evidence/"); do
   git checkout --ours -- $f 2>/dev/null || true
 done
+if grep -rlE "^(<<<<<<<|>>>>>>>) " --include="*.py" --include="*.lean" --include="*.json" --include="*.md" --include="*.sh" . 2>/dev/null | grep -v "^./lean/.lake" | grep -q .; then echo "CONFLICT MARKERS in:"; grep -rlE "^(<<<<<<<|>>>>>>>) " --include="*.py" --include="*.lean" --include="*.json" --include="*.md" . | grep -v "^./lean/.lake"; echo "resolve them, then run: python3 tools/mk_driver.py; python3 tools/mk_manifest.py; git add -A; git commit"; exit 1; fi
 python3 tools/mk_driver.py
 python3 tools/mk_manifest.py
 git add -A
